@@ -14,7 +14,7 @@ from .skeletons import skeleton, U7
 from .mutate import fresh_mtime
 
 LEVEL = 'model_checking'
-BUDGET_S = {'quick': 90, 'thorough': 600}
+BUDGET_S = {'quick': 160, 'thorough': 600}
 BOUNDS = {
     'quick': 'a committed build of a skeleton program (outputs, created directories, symbolic tree U7), then one refused call: '
              '{build, build_versioned, clean} x {wrong-typed argument in each slot, different build name, cache path is a '
